@@ -33,18 +33,18 @@ for sid in ids:
     meta = json.load(open(d + "/meta.json"))
     props = meta.get("caught_by") or [meta["property"]]
     prop = props[0]
-    rc, o = sh("git -C %s checkout -- . && git -C %s apply %s/patch.diff" % (WT, WT, d))
+    rc, o = sh("git -C %s reset -q --hard && git -C %s apply %s/patch.diff" % (WT, WT, d))
     how = "applied"
     if rc != 0:
-        rc, o = sh("git -C %s checkout -- . && git -C %s apply --3way %s/patch.diff" % (WT, WT, d))
+        rc, o = sh("git -C %s reset -q --hard && git -C %s apply --3way %s/patch.diff" % (WT, WT, d))
         how = "applied (3-way)"
         if rc != 0:
-            rc2, o2 = sh("cd %s && git checkout -- . && patch -p1 --fuzz=3 < %s/patch.diff" % (WT, d))
+            rc2, o2 = sh("cd %s && git reset -q --hard && patch -p1 --fuzz=3 < %s/patch.diff" % (WT, d))
             how = "applied (patch --fuzz)"
             if rc2 != 0:
-                sh("git -C %s checkout -- . ; git -C %s clean -fdq" % (WT, WT))
+                sh("git -C %s reset -q --hard ; git -C %s clean -fdq" % (WT, WT))
                 rows.append((sid, prop, "patch no longer applies to HEAD (the code it touched was changed by a later fix)", "", 0))
-                print(sid, "does not apply")
+                print(sid, "does not apply", o[-300:], o2[-300:])
                 continue
     t0 = time.time()
     rc, o = sh("cd /verif && python3 verif.py check %s" % prop, timeout=5400, env=env)
@@ -57,7 +57,7 @@ for sid in ids:
     res = "caught (%s)" % cls if rc == 1 else ("CHECK-BROKEN" if rc == 2 else "NOT caught")
     rows.append((sid, prop, how, res, round(time.time() - t0)))
     print(sid, prop, how, res, round(time.time() - t0), flush=True)
-    sh("git -C %s checkout -- . ; git -C %s clean -fdq -e _build" % (WT, WT))
+    sh("git -C %s reset -q --hard ; git -C %s clean -fdq -e _build" % (WT, WT))
 head = sh("git -C /repo log --format=%h -1")[1].strip()
 vhead = sh("git -C /verif log --format=%h -1")[1].strip()
 with open("/verif/seeded/REGRESSION.md", "w") as f:
